@@ -33,6 +33,15 @@ chk("C12", "shadowsym", "model_checking",
     "Trusted: shadowsym proxies; z3; block markers are located by the harness. Domain: lines not starting in column one with # @ ^ + -; the recorded known-finding line shapes (trailing +/-, interior TAB, form feed, leading CR) are excluded from the main query and replayed separately. Longer bodies are outside the bound.",
     "dynamic symbolic execution of Python byte-code with z3 (shadowsym), kernel and whole-pipeline level", "DESIGN.md 3/C12")
 
+chk("C15", "shadowsym", "other",
+    "Kernel 1: ast.promote_wrap on a library/namespace/class/function tree whose wrap options are symbolic booleans; z3 validity queries decide 'a container's flag after promotion == OR of the options in its subtree' for every container and language. Kernel 2: the whole real pipeline with wrap_python/wrap_lua symbolic at library level and on one declaration at a time, wrap_c/wrap_fortran and five distinct output directories enumerated; on every feasible path: C/Fortran files byte-identical to the Python/Lua-off run, --cfiles/--ffiles == files written, every file in its designated directory, an off language writes nothing, a declaration with a wrapper off is absent from that language's output.",
+    "The symbolic variables are booleans: the exploration is exhaustive over the branch outcomes the code actually takes and z3's role is feasibility and the promotion law's validity. wrap_c/wrap_fortran are enumerated because Shroud tests them with `is False` (static scan on every run). Files are captured in memory.",
+    "symbolic execution of the real pipeline with symbolic option booleans (shadowsym) + z3 validity queries", "DESIGN.md 3/C15")
+chk("C16", "shadowsym", "other",
+    "The whole real pipeline runs with debug, debug_index, doxygen, show_splicer_comments symbolic at library level and debug, doxygen, literalinclude symbolic on each declaration in turn (write_version enumerated) on 4-5 small libraries; every feasible combination of branch outcomes is a path; on every path the file set and the comment-stripped token streams of all generated files equal the all-defaults run.",
+    "Symbolic variables are booleans (exhaustive over feasible branch outcomes; z3 does feasibility bookkeeping). Comment stripping is the harness's own language-aware lexer. Library-level literalinclude excluded by the property.",
+    "symbolic execution of the real pipeline with symbolic option booleans (shadowsym)", "DESIGN.md 3/C16")
+
 NA = {
  "C01": "generated Fortran run-time behaviour: no Fortran front end yields anything a solver can execute; C-side kernels covered under C02/C06/C10",
  "C04": "finite structural comparison of two emitted texts with a Fortran processor's interoperability rules as oracle; nothing symbolic to decide",
